@@ -31,7 +31,7 @@ def prepare(release=False):
     facts = p.facts
     gen_harness.gen_spirv(facts["spirv"])
     gen_harness.gen_reflect(facts["reflect"])
-    gen_harness.gen_decode(facts["operand"])
+    gen_harness.gen_decode(facts["operand"], {f["name"] for f in facts["spirv"]["flags"]})
     gen_harness.gen_operand(facts)
     gen_harness.gen_builder(facts)
     p.exe, err = core.build_harness(release=False)
